@@ -266,6 +266,17 @@ class Inliner:
                     if not new.body:
                         new.body = [ast.Pass()]
                     return out + [new]
+                if isinstance(s, ast.Try) and not s.finalbody and not _block_contains(s.body, ast.Return) and not _block_contains(s.orelse, ast.Return) \
+                        and s.handlers and all(_terminates(h.body) for h in s.handlers):
+                    # every handler leaves the function: what follows the try runs only after a clean body -> it moves into `else`
+                    new = copy.copy(s)
+                    new.handlers = []
+                    for h in s.handlers:
+                        nh = copy.copy(h)
+                        nh.body = conv(h.body) or [ast.Pass()]
+                        new.handlers.append(nh)
+                    new.orelse = conv(list(s.orelse) + rest)
+                    return out + [new]
                 if isinstance(s, ast.With) and _terminates(s.body) and not rest:
                     new = copy.copy(s)
                     new.body = conv(s.body) or [ast.Pass()]
@@ -305,6 +316,19 @@ class Inliner:
                 return None
         e = _Sub(dict(bound), {}).visit(e)
         return e
+
+    @staticmethod
+    def _ifexp_to_if(s: ast.stmt, resolve) -> list[ast.stmt]:
+        """`x = helper(..) if c else e`: the conditional expression becomes an if statement so that the helper can be inlined."""
+        if not (isinstance(s, ast.Assign) and isinstance(s.value, ast.IfExp)):
+            return [s]
+        if not any(isinstance(c, ast.Call) and resolve(c)[0] is not None for c in ast.walk(s.value)):
+            return [s]
+        a = ast.copy_location(ast.Assign(targets=s.targets, value=s.value.body), s)
+        b = ast.copy_location(ast.Assign(targets=copy.deepcopy(s.targets), value=s.value.orelse), s)
+        new = ast.copy_location(ast.If(test=s.value.test, body=[a], orelse=[b]), s)
+        ast.fix_missing_locations(new)
+        return [new]
 
     @staticmethod
     def _comp_to_loop(s: ast.stmt, resolve) -> list[ast.stmt]:
@@ -400,6 +424,7 @@ class Inliner:
             nonlocal changed
             out: list[ast.stmt] = []
             block = [x for s in block for x in self._comp_to_loop(s, resolve)]
+            block = [x for s in block for x in self._ifexp_to_if(s, resolve)]
             for s in block:
                 if isinstance(s, (ast.FunctionDef, ast.AsyncFunctionDef, ast.ClassDef)):
                     out.append(s)
